@@ -17,7 +17,8 @@ def leaf_class(inst):
     if _LEAF is None:
         from .mir import norm_path
         t = load_table('leaf_classes.json')
-        _LEAF = {'exact': {norm_path(k): v for k, v in t['exact'].items()}, 'prefix': {norm_path(k): v for k, v in t['prefix'].items()}}
+        _LEAF = {'exact': {norm_path(k): v for k, v in t['exact'].items()}, 'prefix': {norm_path(k): v for k, v in t['prefix'].items()},
+                 'family': [(re.compile(rx), c) for rx, c, _why in t.get('family', [])]}
     from .mir import norm_path
     p = norm_path(inst['path'])
     if p in _LEAF['exact']:
@@ -27,6 +28,11 @@ def leaf_class(inst):
             return c
     if inst['kind'] == 'intrinsic':
         return 'pure'
+    for rx, c in _LEAF['family']:
+        if rx.search(p):
+            if c == 'pure' and any(('closure@' in a) or a.startswith(('fn(', 'for<', 'unsafe fn(', 'extern ')) for a in (inst.get('args') or [])):
+                return 'hof'
+            return c
     return None
 
 
@@ -266,8 +272,26 @@ def _expected_tracks_observed(b, s, tail, head, blocks):
     return False
 
 
-def classify_back_edge(cx, b, tail, head):
+def cls_admitted(cls, allowed):
+    """a class label may be composite (`L-CAS+L-CHANGED`: one back edge reached through several `continue`s, each for its own reason)"""
+    return bool(cls) and all(part in allowed for part in cls.split('+'))
+
+
+def classify_back_edge(cx, b, tail, head, _depth=0):
     """returns (class, detail) or (None, why)"""
+    # several `continue`s that meet in one empty block before the back edge: each way into that block is judged on its own
+    if _depth < 2 and not b.stmts(tail) or (_depth < 2 and all(s_['k'] == 'assign' and s_['rv']['k'] == 'use' and s_['rv']['op'].get('k') == 'const' for s_ in b.stmts(tail))):
+        preds = [p_ for p_ in b.preds(False)[tail] if not b.is_cleanup(p_)]
+        if b.term(tail)['k'] == 'goto' and len(preds) >= 2:
+            parts, whys = [], []
+            for p_ in preds:
+                c_, w_ = classify_back_edge(cx, b, p_, head, _depth + 1)
+                if c_ is None:
+                    return (None, 'one of the ways into the back edge (through %s): %s' % (b.loc(p_), w_))
+                parts.append(c_)
+                whys.append('%s: %s' % (c_, w_))
+            uniq = sorted(set('+'.join(parts).split('+')))
+            return ('+'.join(uniq), ' | '.join(whys))
     blocks = b.natural_loop(tail, head)
     # ---- L-CONST: the header (or a block dominating the tail) calls Iterator::next on a finite
     # iterator and the loop exits on its None
@@ -644,7 +668,7 @@ def rule_loop_free(fx, col):
                 continue
             cls, why = classify_back_edge(cx, b, t, h)
             loop_fns.add(b.fname)
-            col.add('LOOP-FREE', '%s|loop@%s' % (b.fname, cls or 'unclassified'), cls == 'L-CONST',
+            col.add('LOOP-FREE', '%s|loop@%s' % (b.fname, cls or 'unclassified'), cls_admitted(cls, {'L-CONST'}),
                     ('%s: %s' % (cls, why)) if cls else why, b.loc(h), path=None if cls == 'L-CONST' else g.chain(parent, i))
         # atomic RMW inside a non-const loop is covered by the class requirement above;
         # compare_exchange_weak outside any loop may fail spuriously and must not exist on a read
@@ -695,8 +719,9 @@ def rule_loop_class(fx, col):
                 col.fail('LOOP-CLASS', '%s|loop' % inst['pretty'], 'loop in a compiler-generated shim', path=g.chain(parent, i))
                 continue
             cls, why = classify_back_edge(cx, b, t, h)
-            classes[cls] += 1
-            col.add('LOOP-CLASS', '%s|loop@%s' % (b.fname, cls or 'unclassified'), cls in ADMITTED_WRITER,
+            for part in (cls or 'None').split('+'):
+                classes[part if cls else None] += 1
+            col.add('LOOP-CLASS', '%s|loop@%s' % (b.fname, cls or 'unclassified'), cls_admitted(cls, ADMITTED_WRITER),
                     ('%s: %s' % (cls, why)) if cls else why, b.loc(h), path=None if cls else g.chain(parent, i))
     for cls in ('L-CONST', 'L-CAS', 'L-CHANGED', 'L-LIST', 'L-INTERFERENCE'):
         col.floor('LOOP-CLASS', 'class ' + cls, classes.get(cls, 0), 1)
@@ -712,7 +737,7 @@ def rule_loop_class(fx, col):
             inl = [h for h, bl, tl in s.body.loops() if s.bb in bl]
             if inl:
                 kinds = {classify_back_edge(cx, s.body, tl[0], h)[0] for h, bl, tl in s.body.loops() if s.bb in bl}
-                col.add('LOOP-CLASS', '%s|debt load in loop' % s.body.fname, kinds <= {'L-CONST'},
+                col.add('LOOP-CLASS', '%s|debt load in loop' % s.body.fname, all(cls_admitted(k_, {'L-CONST'}) for k_ in kinds),
                         'a debt slot is read inside a loop of class %s (debts are paid, never awaited)' % sorted(str(k) for k in kinds), s.loc)
 
 
